@@ -134,6 +134,8 @@ def eval_op(op: str) -> str:
             key = BTC.keys.public(parse_pt(a[2]))
             return "ok %d" % (1 if key.verify(int(a[3]).to_bytes(32, "big"), sigencode_der(int(a[4]), int(a[5]))) else 0)
         g = _generator(a[1])
+        if k == "ec_consts":
+            return "ok %d %d %d %d %d %d" % (g._p, g._a, g._b, g[0], g[1], g._order)
         # ---- ops whose MODEL is the glue model of native/openssl.py (Lean: Ossl.* / Gen.* over Ossl.methods, libcrypto
         # played by the pure model); the implementation side is the real class of the configuration named in the token
         if k == "ec_ossl_mul":
@@ -529,8 +531,13 @@ def consts(tok: str):
     if name.startswith("toy:"):
         return toy_params(name)
     if name not in CURVE_CONSTS:
-        g = _generator(name)
-        CURVE_CONSTS[name] = (g._p, g._a, g._b, g[0], g[1], g._order)
+        # asked of the pure worker: importing the generator modules in this process would run the constructors of the
+        # default (OpenSSL) classes, and a broken native glue would then crash the harness instead of failing the check
+        ans = call("ec_consts %s/pure" % name)
+        if not ans.startswith("ok "):
+            from lib import Infra
+            raise Infra("curve constants of %s unavailable: %s" % (name, ans))
+        CURVE_CONSTS[name] = tuple(int(v) for v in ans[3:].split(" "))
     return CURVE_CONSTS[name]
 
 
